@@ -418,9 +418,10 @@ def storeStep (sid : Nat) (b : Build) (ff : Fragment) : Build :=
 theorem storeFragmentsFound_eq (b : Build) (sid : Nat) (frags : List Fragment) :
     storeFragmentsFound b sid frags = frags.foldl (storeStep sid) b := rfl
 
-/-- the loop state of the translated `store_fragments_found` — `(multi, found, heap)` — against the model's `Build` -/
-def RelS (b0 : Build) (s : List (Key × Nat) × List (Key × Nat) × List Found) (b : Build) : Prop :=
-  Coherent s.2.2 s.2.1 s.1 ∧ b = { b0 with found := absFound s.2.2 s.2.1, multi := s.1.map (·.1) }
+/-- the loop state of the translated `store_fragments_found` — `(heap, found, multi)`, the translator's canonical (sorted by
+    variable name) order — against the model's `Build` -/
+def RelS (b0 : Build) (s : List Found × List (Key × Nat) × List (Key × Nat)) (b : Build) : Prop :=
+  Coherent s.1 s.2.1 s.2.2 ∧ b = { b0 with found := absFound s.1 s.2.1, multi := s.2.2.map (·.1) }
 
 theorem absFound_new {heap : List Found} {found : List (Key × Nat)} (k : Key) (f : Found)
     (h : ∀ kv ∈ found, kv.2 < heap.length) :
@@ -432,9 +433,9 @@ theorem absFound_new {heap : List Found} {found : List (Key × Nat)} (k : Key) (
 
 /-- a contig seen for the first time: a new object, a new entry of `found` -/
 theorem relS_new {b0 b : Build} {multi found : List (Key × Nat)} {heap : List Found} {ff : Fragment} (sid : Nat)
-    (h : RelS b0 (multi, found, heap) b) (hk : dGet? found ff.keyTuple = none) :
-    RelS b0 (multi, dSet found ff.keyTuple heap.length,
-             PyRt.foundAdd (heap ++ [{ fragment := ff, scaffolds := [] }]) heap.length sid) (storeStep sid b ff) := by
+    (h : RelS b0 (heap, found, multi) b) (hk : dGet? found ff.keyTuple = none) :
+    RelS b0 (PyRt.foundAdd (heap ++ [{ fragment := ff, scaffolds := [] }]) heap.length sid,
+             dSet found ff.keyTuple heap.length, multi) (storeStep sid b ff) := by
   obtain ⟨hc, rfl⟩ := h
   simp only [] at hc
   rw [foundAdd_new, dSet_of_none _ hk]
@@ -443,8 +444,8 @@ theorem relS_new {b0 b : Build} {multi found : List (Key × Nat)} {heap : List F
 
 /-- a contig seen before: the object it maps to goes into `multi` and gets one more holder -/
 theorem relS_old {b0 b : Build} {multi found : List (Key × Nat)} {heap : List Found} {ff : Fragment} {r : Nat} (sid : Nat)
-    (h : RelS b0 (multi, found, heap) b) (hk : dGet? found ff.keyTuple = some r) :
-    RelS b0 (dSet multi ff.keyTuple r, found, PyRt.foundAdd heap r sid) (storeStep sid b ff) := by
+    (h : RelS b0 (heap, found, multi) b) (hk : dGet? found ff.keyTuple = some r) :
+    RelS b0 (PyRt.foundAdd heap r sid, found, dSet multi ff.keyTuple r) (storeStep sid b ff) := by
   obtain ⟨hc, rfl⟩ := h
   simp only [] at hc
   rw [foundAdd_of_lt _ (hc.lt hk)]
@@ -464,17 +465,17 @@ theorem store_tie (b : Build) (heap : List Found) (found multi : List (Key × Na
   rw [storeFragmentsFound_eq]
   refine forIn_pure_bind (RelS b) (storeStep sid) b ?_ ⟨hc, ?_⟩ ?_
   · intro ff _ s m hr
-    obtain ⟨multi, found, heap⟩ := s
+    obtain ⟨heap, found, multi⟩ := s
     cases hk : dGet? found ff.keyTuple with
     | none => exact ⟨_, by simp [hk], relS_new sid hr hk⟩
     | some r => exact ⟨_, by simp [hk], relS_old sid hr hk⟩
   · rw [← hf, ← hm]
-  · rintro ⟨multi', found', heap'⟩ ⟨hc', hb'⟩
+  · rintro ⟨heap', found', multi'⟩ ⟨hc', hb'⟩
     exact ⟨_, rfl, heap', found', multi', rfl, hc', hb'⟩
 
 /-! ### 7. one resolver round -/
 
-/-- the model state a source state `(store, heap, multi)` (with the untouched `found`) stands for; everything else as in `b0` -/
+/-- the model state a source state `(heap, multi, store)` (with the untouched `found`) stands for; everything else as in `b0` -/
 def mkB (b0 : Build) (st : List Res) (heap : List Found) (found multi : List (Key × Nat)) : Build :=
   { b0 with store := st, found := absFound heap found, multi := multi.map (·.1) }
 
@@ -517,17 +518,17 @@ theorem fixes_nil_store {err : Int} {store store' : List Res} {pss : List (List 
     pss (store, []) (store', []) (fun _ => rfl) h
   exact this rfl
 
-/-- the state of the premise loops — `(store, ovr_resolver)` — against the model's premise dictionary -/
-def RelP (st : List Res) (s : List Res × List (Key × List Premise)) (m : List (Key × List Premise)) : Prop :=
-  s.1 = st ∧ s.2 = m
+/-- the state of the premise loops — `(ovr_resolver, store)` — against the model's premise dictionary -/
+def RelP (st : List Res) (s : List (Key × List Premise) × List Res) (m : List (Key × List Premise)) : Prop :=
+  s.2 = st ∧ s.1 = m
 
 /-- the state of the `for premise in fixes_made` loop — `(heap, multi)` — against the model's `Build` -/
 def RelB (b0 : Build) (found : List (Key × Nat)) (st : List Res) (s : List Found × List (Key × Nat)) (b : Build) : Prop :=
   Coherent s.1 found s.2 ∧ b = mkB b0 st s.1 found s.2
 
-/-- the state of the `while multi:` loop — `(store, heap, multi)` — against the model's `Build` -/
-def RelD (b0 : Build) (found : List (Key × Nat)) (s : List Res × List Found × List (Key × Nat)) (b : Build) : Prop :=
-  Coherent s.2.1 found s.2.2 ∧ b = mkB b0 s.1 s.2.1 found s.2.2
+/-- the state of the `while multi:` loop — `(heap, multi, store)` — against the model's `Build` -/
+def RelD (b0 : Build) (found : List (Key × Nat)) (s : List Found × List (Key × Nat) × List Res) (b : Build) : Prop :=
+  Coherent s.1 found s.2.1 ∧ b = mkB b0 s.2.2 s.1 found s.2.1
 
 theorem multi_entry_found {heap : List Found} {found multi : List (Key × Nat)} (hc : Coherent heap found multi)
     {k : Key} {r : Nat} (hd : dGet? multi k = some r) :
@@ -618,39 +619,39 @@ theorem discard_tie (fuel : Nat) (b : Build) (heap : List Found) (found multi : 
     Ref (DiscardQ b found) (Gen.Imp.BuildAssembly_discard_overhanging_fragments fuel b.store heap multi b.err)
       (discardOverhanging fuel b) := by
   unfold Gen.Imp.BuildAssembly_discard_overhanging_fragments
-  refine whileLoop_bind (RelD b found) ?hcond ?hbody ?hk fuel (b.store, heap, multi) b ⟨hc, ?init⟩
+  refine whileLoop_bind (RelD b found) ?hcond ?hbody ?hk fuel _ b ⟨hc, ?init⟩
   case init => simp only [mkB, ← hf, ← hm]
   case hcond =>
-    rintro ⟨store, heap, multi⟩ b' ⟨_, rfl⟩
+    rintro ⟨heap, multi, store⟩ b' ⟨_, rfl⟩
     cases multi <;> rfl
   case hk =>
-    rintro ⟨store, heap, multi⟩ b' ⟨hc', hb'⟩
+    rintro ⟨heap, multi, store⟩ b' ⟨hc', hb'⟩
     exact ⟨_, rfl, hc', hb'⟩
   case hbody =>
-    rintro ⟨store, heap, multi⟩ b' ⟨hc', rfl⟩ _
+    rintro ⟨heap, multi, store⟩ b' ⟨hc', rfl⟩ _
     simp only [] at hc' ⊢
     simp only [ImpResolver.resolverRound_eq, ImpResolver.roundPrems, mkB_multi, mkB_found, mkB_store, mkB_err]
     rw [forIn_map, List.foldlM_map]
     refine forIn_bind (RelP store) ?ostep ⟨rfl, rfl⟩ ?ocont
     case ostep =>
       -- `for fnd in multi.values(): for scffld in fnd.scaffolds: add_overhang_premise(fnd.fragment, scffld)`
-      rintro kv hkv ⟨st, prems⟩ m ⟨rfl, rfl⟩
+      rintro kv hkv ⟨prems, st⟩ m ⟨rfl, rfl⟩
       have hkv' : dGet? (absFound heap found) kv.1 = some (PyRt.getFound heap kv.2) := by
         rw [dGet?_absFound, hc'.2.2.1 kv hkv]; rfl
       simp only [hkv']
       refine forIn_bind_ok (RelP st) ?istep ⟨rfl, rfl⟩ ?icont
       case istep =>
-        rintro sid _ ⟨st', prems'⟩ m' ⟨rfl, rfl⟩
+        rintro sid _ ⟨prems', st'⟩ m' ⟨rfl, rfl⟩
         simp only [C02.add_overhang_premise_is_source]
         cases addPremise st' prems' (PyRt.getFound heap kv.2).fragment sid with
         | error e => rfl
         | ok p => exact ⟨_, rfl, _, rfl, rfl, rfl⟩
       case icont =>
-        rintro ⟨st', prems'⟩ m' ⟨rfl, rfl⟩
+        rintro ⟨prems', st'⟩ m' ⟨rfl, rfl⟩
         exact ⟨_, rfl, _, rfl, rfl, rfl⟩
     case ocont =>
       -- `fixes_made = ovr_resolver.make_fixes()`
-      rintro ⟨st, prems⟩ m ⟨rfl, rfl⟩
+      rintro ⟨prems, st⟩ m ⟨rfl, rfl⟩
       simp only [C02.make_fixes_is_source]
       refine Ref.bind (Ref.refl _) ?_
       rintro ⟨store2, fixes⟩ _ ⟨rfl, hfx⟩
